@@ -134,11 +134,58 @@ pub fn extra_alphabet() -> Vec<Value> {
         json!({"k": "load", "docs": [{"name": "X2", "type": "dependency", "meta": {"attack": ["1234"]}, "matches": [["$a", ".x == '1'"]], "condition": "$a"}]}),
         json!({"k": "load", "docs": [{"name": "X3", "type": "detection", "meta": {"attack": ["T+1"]}, "matches": [["$a", ".x == '1'"]], "condition": "$a"}]}),
         json!({"k": "load", "docs": [{"name": "X4", "type": "filter", "meta": {"attack": ["t1234.001"], "tags": ["x"]}, "matches": [["$a", ".x == '1'"]], "condition": "$a"}]}),
+        // non-ASCII text around a placeholder, with a template defined or not
+        json!({"k": "load", "docs": [rule("NA", &[("$a", ".x == 'caf\u{e9}{{t}}cr\u{e8}me \u{65e5}\u{672c}'")], Some("$a"))]}),
+        // rule names the `rule(..)` grammar cannot spell, and rules referring to them: the reference is malformed
+        json!({"k": "load", "docs": [{"name": "a/b", "matches": [["$a", ".x == '1'"]]}, rule("R1", &[("$d", "rule(a/b)")], Some("$d"))]}),
+        json!({"k": "load", "docs": [{"name": "d\u{e9}p", "matches": [["$a", ".x == '1'"]]}, rule("R2", &[("$d", "rule(d\u{e9}p)")], Some("$d"))]}),
+        json!({"k": "load", "docs": [{"name": "a:b", "matches": [["$a", ".x == '1'"]]}, {"name": "x y", "matches": [["$a", ".x == '1'"]]}, rule("R3", &[("$d", "rule(a:b)"), ("$e", "rule(x y)")], Some("$d or $e"))]}),
+        json!({"k": "load", "docs": [{"name": "$a", "matches": [["$a", ".x == '1'"]]}, rule("R4", &[("$d", "rule($a)")], Some("$d"))]}),
+        json!({"k": "load", "docs": [{"name": "a.b-c_d", "matches": [["$a", ".x == '1'"]]}, rule("R5", &[("$d", "rule(a.b-c_d)")], Some("$d"))]}),
         json!({"k": "load", "docs": [{"name": "V", "meta": {"attack": ["T4294967296", "T1059.99999999999999999999"]}, "matches": [["$a", ".x == '1'"]]}]}), // id numbers beyond u32/u64
     ]
 }
 
+/// histories about dependency checking on a compiler that is asked more than once, cloned, and loaded further
+pub fn gen_reference_histories(out: &mut dyn FnMut(Value)) {
+    let a = vec![
+        json!({"k": "load", "docs": [rule("A", &[("$a", ".x == '1'")], Some("$a"))]}),
+        json!({"k": "load", "docs": [rule("F", &[("$d", "rule(Z)")], Some("$d"))]}),
+        json!({"k": "load", "docs": [rule("Z", &[("$a", ".x == '1'")], None)]}),
+        json!({"k": "load", "docs": [rule("S", &[("$s", "rule(S)")], Some("$s"))]}),
+        json!({"k": "load", "docs": [rule("D", &[("$d", "rule(A)")], Some("$d"))]}),
+        json!({"k": "load", "docs": [rule("A", &[("$b", ".z == '3'")], None)]}),
+        json!({"k": "compile"}),
+        json!({"k": "clone"}),
+        json!({"k": "engine"}),
+    ];
+    let tail = vec![json!({"k": "rules"}), json!({"k": "compiled"}), json!({"k": "engine"})];
+    for n in 1..=4usize {
+        let mut idx = vec![0usize; n];
+        'outer: loop {
+            let mut ops: Vec<Value> = idx.iter().map(|i| a[*i].clone()).collect();
+            ops.extend(tail.clone());
+            out(json!({"op": "history", "ops": ops, "tag": "references, repeated compile, clones: exhaustive length <= 4", "nt": true}));
+            let mut k = n;
+            loop {
+                if k == 0 {
+                    break 'outer;
+                }
+                k -= 1;
+                if idx[k] + 1 < a.len() {
+                    idx[k] += 1;
+                    for x in idx.iter_mut().skip(k + 1) {
+                        *x = 0;
+                    }
+                    break;
+                }
+            }
+        }
+    }
+}
+
 pub fn gen(tier: &str, seed: u64, out: &mut dyn FnMut(Value)) {
+    gen_reference_histories(out);
     let alpha = alphabet();
     let thorough = tier == "thorough";
     let maxlen = if thorough { 5 } else { 4 };
